@@ -119,12 +119,13 @@ theorem C17_parse_entry_points_bibtexml_nonvacuous :
 
 /-! ## writers -/
 
-/-- **Write entry points** (BaseWriter, both `unicode_io` values).
-`unicode_io` classes: `to_bytes` is `to_string` encoded — unconditionally, error for error.
+/-- **Write entry points** (BaseWriter, both `unicode_io` values) — the clauses that hold without proviso.
+`unicode_io` classes: `to_bytes` is `to_string` encoded, error for error.
 Byte classes: `to_string` is `to_bytes` decoded; so `to_bytes` is `to_string` encoded as soon as the codec
-re-encodes what it decodes.  For both: `write_file` to a name that can be opened leaves exactly the bytes
-of `to_bytes` in that file (after a single open attempt), a file-like object receives what `write_stream`
-writes, and an error of the plug-in's core is the same error from every entry point. -/
+re-encodes what it decodes; and `write_file` to a name that can be opened leaves exactly the bytes of
+`to_bytes` in that file (after a single open attempt).
+Both: a file-like object receives what `write_stream` writes, and an error of the plug-in's core is the
+same error from every entry point. -/
 theorem C17_write_entry_points {Db E H S : Type}
     (u : Bool) (core : WriterCore Db E) (c utf8 : Codec) (encName : Str) (env : Env H)
     (d : Db) (p : Path) (h : H) (hopen : ∀ mode kw, env.opener p mode kw = .ok h) :
@@ -132,9 +133,9 @@ theorem C17_write_entry_points {Db E H S : Type}
     (u = false → ∀ b, toBytes (.base u) core c encName d = .ok b →
         toStr (.base u) core c utf8 encName d = (c.dec b).mapError WErr.unicodeDecode ∧
         ((∀ b' s', c.dec b' = .ok s' → c.enc s' = b') →
-          ∀ s, toStr (.base u) core c utf8 encName d = .ok s → b = c.enc s)) ∧
-    (∀ b, toBytes (.base u) core c encName d = .ok b →
-        ∃ ev, writeFile (.base u) core c encName env d (.path p : FileArg S) = ([ev], .ok (.file h b))) ∧
+          ∀ s, toStr (.base u) core c utf8 encName d = .ok s → b = c.enc s) ∧
+        writeFile (.base u) core c encName env d (.path p : FileArg S)
+          = ([.tryOpen p ['w', 'b'] none], .ok (.file h b))) ∧
     (∀ (st : S) payload, writeStream (.base u) core c encName d = .ok payload →
         writeFile (.base u) core c encName env d (.stream st) = ([], .ok (.stream st payload))) ∧
     (∀ e, toBytes (.base u) core c encName d = .error e →
@@ -142,20 +143,11 @@ theorem C17_write_entry_points {Db E H S : Type}
         toStr (.base u) core c utf8 encName d = .error e) := by
   cases u with
   | true =>
-    refine ⟨?_, ?_, ?_, ?_, ?_⟩
+    refine ⟨?_, ?_, ?_, ?_⟩
     · intro _
       simp only [toBytes, toStr, writeStream]
       cases core.writeText d <;> rfl
     · intro hu; cases hu
-    · intro b hb
-      simp only [toBytes, writeStream] at hb
-      cases hw : core.writeText d with
-      | error e => simp [hw] at hb
-      | ok s =>
-        simp only [hw, Except.ok.injEq] at hb
-        subst hb
-        refine ⟨.tryOpen p ['w'] (some encName), ?_⟩
-        simp [writeFile, WriterKind.unicodeIO, openUnicode, pyOpen, openOrCreate, hopen, writeStream, hw]
     · intro st payload hp
       simp [writeFile, WriterKind.unicodeIO, openUnicode, pyOpen, hp]
     · intro e he
@@ -167,7 +159,7 @@ theorem C17_write_entry_points {Db E H S : Type}
         subst he
         simp [writeFile, WriterKind.unicodeIO, openUnicode, pyOpen, openOrCreate, hopen, writeStream, hw, toStr]
   | false =>
-    refine ⟨?_, ?_, ?_, ?_, ?_⟩
+    refine ⟨?_, ?_, ?_, ?_⟩
     · intro hu; cases hu
     · intro _ b hb
       simp only [toBytes, writeStream] at hb
@@ -176,7 +168,7 @@ theorem C17_write_entry_points {Db E H S : Type}
       | ok b' =>
         simp only [hw, Except.ok.injEq] at hb
         subst hb
-        constructor
+        refine ⟨?_, ?_, ?_⟩
         · simp only [toStr, writeStream, hw]
           cases c.dec b' <;> rfl
         · intro hcodec s hs
@@ -187,15 +179,7 @@ theorem C17_write_entry_points {Db E H S : Type}
             simp only [hdec, Except.ok.injEq] at hs
             subst hs
             exact (hcodec _ _ hdec).symm
-    · intro b hb
-      simp only [toBytes, writeStream] at hb
-      cases hw : core.writeBytes d with
-      | error e => simp [hw] at hb
-      | ok b' =>
-        simp only [hw, Except.ok.injEq] at hb
-        subst hb
-        refine ⟨.tryOpen p ['w', 'b'] none, ?_⟩
-        simp [writeFile, WriterKind.unicodeIO, openRaw, pyOpen, openOrCreate, hopen, writeStream, hw]
+        · simp [writeFile, WriterKind.unicodeIO, openRaw, pyOpen, openOrCreate, hopen, writeStream, hw]
     · intro st payload hp
       simp [writeFile, WriterKind.unicodeIO, openRaw, pyOpen, hp]
     · intro e he
@@ -212,12 +196,54 @@ theorem C17_write_entry_points_nonvacuous :
     (∀ mode kw, mode.contains 'w' = true → Toy.env.opener "/out/x.bib".toList mode kw = .ok "/out/x.bib".toList) ∧
     toStr (.base true) Toy.writer Toy.codec Toy.codec "L1".toList d = .ok d ∧
     toBytes (.base true) Toy.writer Toy.codec "L1".toList d = .ok (Toy.enc d) ∧
-    writeFile (.base true) Toy.writer Toy.codec "L1".toList Toy.env d (.path "/out/x.bib".toList : FileArg Unit)
-      = ([.tryOpen "/out/x.bib".toList "w".toList (some "L1".toList)], .ok (.file "/out/x.bib".toList (Toy.enc d))) := by
-  refine ⟨?_, by decide, by decide, by decide⟩
+    toStr (.base false) Toy.writer Toy.codec Toy.codec "L1".toList d = .ok d ∧
+    writeFile (.base false) Toy.writer Toy.codec "L1".toList Toy.env d (.path "/out/x.bib".toList : FileArg Unit)
+      = ([.tryOpen "/out/x.bib".toList "wb".toList none], .ok (.file "/out/x.bib".toList (Toy.enc d))) := by
+  refine ⟨?_, by decide, by decide, by decide, by decide⟩
   intro mode kw hm
   simp only [Toy.env, hm, if_true]
   decide
+
+/-- **`write_file` of a `unicode_io` class writes exactly `to_bytes`** — PROVIDED the document is not
+empty or the codec encodes the empty string as no bytes (known finding `C17-empty-document-bom`: see
+`C17_write_file_neg`).  One open attempt, in text mode, with the encoding. -/
+theorem C17_write_file_partial {Db E H S : Type}
+    (core : WriterCore Db E) (c : Codec) (encName : Str) (env : Env H)
+    (d : Db) (p : Path) (h : H) (hopen : ∀ mode kw, env.opener p mode kw = .ok h)
+    (doc : Str) (hdoc : core.writeText d = .ok doc) (hne : doc ≠ [] ∨ c.enc [] = []) :
+    toBytes (.base true) core c encName d = .ok (c.enc doc) ∧
+    writeFile (.base true) core c encName env d (.path p : FileArg S)
+      = ([.tryOpen p ['w'] (some encName)], .ok (.file h (c.enc doc))) := by
+  have htf : textFile c doc = c.enc doc := by
+    unfold textFile
+    rcases hne with hne | hne
+    · cases doc with
+      | nil => exact absurd rfl hne
+      | cons x r => rfl
+    · cases doc with
+      | nil => simp [hne]
+      | cons x r => rfl
+  constructor
+  · simp [toBytes, writeStream, hdoc]
+  · simp [writeFile, WriterKind.unicodeIO, openUnicode, pyOpen, openOrCreate, hopen, writeStream, hdoc, htf]
+
+theorem C17_write_file_partial_nonvacuous :
+    let d := "café\n".toList
+    Toy.writer.writeText d = .ok d ∧ (d ≠ [] ∨ Toy.codec.enc [] = []) ∧
+    (Toy.writer.writeText [] = .ok [] ∧ ([] ≠ ([] : Str) ∨ Toy.codec.enc [] = [])) ∧
+    writeFile (.base true) Toy.writer Toy.codec "L1".toList Toy.env d (.path "/out/x.bib".toList : FileArg Unit)
+      = ([.tryOpen "/out/x.bib".toList "w".toList (some "L1".toList)], .ok (.file "/out/x.bib".toList (Toy.enc d))) := by
+  refine ⟨by decide, by decide, by decide, by decide⟩
+
+/-- The proviso of `C17_write_file_partial` cannot be dropped: for the EMPTY document and a codec that
+writes a byte-order mark (as UTF-16 does) `to_bytes` is the mark, while the file written by `write_file`
+stays empty — "writing to a file writes exactly those bytes" fails there. -/
+theorem C17_write_file_neg :
+    toStr (.base true) Toy.writer Toy.bomCodec Toy.codec "BOM".toList [] = .ok [] ∧
+    toBytes (.base true) Toy.writer Toy.bomCodec "BOM".toList [] = .ok [255, 254] ∧
+    writeFile (.base true) Toy.writer Toy.bomCodec "BOM".toList Toy.env [] (.path "/out/x.bib".toList : FileArg Unit)
+      = ([.tryOpen "/out/x.bib".toList "w".toList (some "BOM".toList)], .ok (.file "/out/x.bib".toList [])) := by
+  refine ⟨by decide, by decide, by decide⟩
 
 /-- **Write entry points, BibTeXML.**  `to_bytes` is the XML declaration naming the encoding, the
 `to_string` document and the final newline, encoded; `write_file` leaves exactly those bytes.
